@@ -222,6 +222,7 @@ class Conn:
         self.honour_pause = honour_pause
         self.invoke_limit = 400
         self.ws_received: list = []
+        self.shutdown_task = None
         self.closed_at_invoked = None     # handler invocations at the moment close() (pre_shutdown) was called
         self.runaway = False
         self.shadow_heads = 0
@@ -351,6 +352,17 @@ class Conn:
         text = "r%s" % key
         if b.get("block"):
             await self.gate()
+        if kind == "shielded":
+            # outlives the connection and Server.shutdown(): swallows cancellation until the harness releases it
+            f = self.loop.create_future()
+            self.gates.append(f)
+            while not f.done():
+                try:
+                    await asyncio.shield(f)
+                except asyncio.CancelledError:
+                    if f.cancelled():
+                        raise
+            return web.Response(text=text, headers=hdr), "Fr1200"
         if kind == "ws":
             from aiohttp import WSMsgType
             ws = web.WebSocketResponse()
@@ -510,6 +522,12 @@ class Conn:
         elif k == "drain":
             self.drain()
             return
+        elif k == "shutdown":
+            # Server.pre_shutdown() + Server.shutdown(timeout), as AppRunner.cleanup() does; runs as its own task, the
+            # following ticks let its grace periods expire
+            srv = self.runner.server
+            srv.pre_shutdown()
+            self.shutdown_task = self.loop.create_task(srv.shutdown(float(st[1])))
         elif k == "close":
             # Server.pre_shutdown(): conn.close() -- only while a handler is in flight (the idle case is C20's finding)
             if self.active is None or self.tr.closed:
@@ -630,6 +648,9 @@ def oracle(conn: Conn, expect_heads: int | None, drained: bool):
         bad.append(("escape", f"start() ended with {conn.start_task.exception()!r}"))
     if conn.escapes:
         bad.append(("escape", conn.escapes[0]))
+    if conn.shutdown_task is not None and conn.shutdown_task.done() and not conn.shutdown_task.cancelled() \
+            and conn.shutdown_task.exception() is not None:
+        bad.append(("escape", f"Server.shutdown() raised {conn.shutdown_task.exception()!r}"))
     if conn.loop.exceptions:
         c0 = conn.loop.exceptions[0]
         bad.append(("escape", f"loop exception handler called: {c0.get('message')} {c0.get('exception')!r}"))
@@ -662,9 +683,11 @@ def oracle(conn: Conn, expect_heads: int | None, drained: bool):
             bad.append(("upgrade", "bytes sent behind the accepted handshake never reached the WebSocket reader"))
     if drained and case.get("expect_400_last") and conn.parse_errors:
         last = next((r for r in reversed(resps) if r["done"]), None)
-        if not closed or last is None or last["status"] != 400:
+        n400 = sum(1 for r in resps if r["done"] and r["status"] == 400)
+        if not closed or last is None or last["status"] != 400 or n400 != 1:
             bad.append(("no-4xx-close", f"the parser rejected the input; connection closed={closed}, last complete response "
-                                        f"{None if last is None else last['status']} (must be the 400)"))
+                                        f"{None if last is None else last['status']}, {n400} responses with status 400 "
+                                        "(must be: exactly one 400, as the last response, then close)"))
     for k in case.get("forbidden_keys", []):
         if k in conn.order_log:
             bad.append(("smuggled", f"bytes of a request body were handled as request /r/{k} (handled order {conn.order_log})"))
@@ -1213,6 +1236,90 @@ def gen_shutdown_case(rng):
     return {"suite": "shutdown", "beh": beh, "steps": steps, "ka": KA, "linger": LINGER, "nreq": n}
 
 
+NONUTF8 = [b"\xff", b"\xe9", b"\xc3\x28", b"\xed\xa0\x80", b"\xf8\x88", b"\x80abc", b"caf\xe9"]
+
+
+def gen_nonutf8_case(rng, fixed=None):
+    """Bytes that are not valid UTF-8 in every syntactic position of a request head.  Whatever the parser decides: a rejection
+    is answered by exactly one 400 and the close, an accepted request by its handler's response."""
+    x = rng.choice(NONUTF8)
+    pos = fixed if fixed is not None else rng.choice(["method", "origin", "origin-query", "absolute-host", "absolute-path", "authority",
+                                                      "noslash", "noslash-only", "version", "name", "value", "host-value", "asterisk"])
+    lead = rng.randint(0, 2)
+    method, target, version, hdrs = b"GET", b"/r/%d" % lead, b"HTTP/1.1", [(b"Host", b"x")]
+    if pos == "method":
+        method = b"GE" + x + b"T"
+    elif pos == "origin":
+        target = b"/a" + x + b"b"
+    elif pos == "origin-query":
+        target = b"/a?q=" + x
+    elif pos == "absolute-host":
+        target = b"http://h" + x + b".example/p"
+    elif pos == "absolute-path":
+        target = b"http://h.example/p" + x
+    elif pos == "authority":
+        target = b"caf" + x + b".example:80"
+    elif pos == "noslash":
+        target = b"foo" + x + b"bar"
+    elif pos == "noslash-only":
+        target = x
+    elif pos == "asterisk":
+        target = b"*" + x
+    elif pos == "version":
+        version = b"HTTP/1." + x
+    elif pos == "name":
+        hdrs.append((b"X-" + x, b"v"))
+    elif pos == "value":
+        hdrs.append((b"X-A", b"v" + x + b"w"))
+    elif pos == "host-value":
+        hdrs = [(b"Host", b"h" + x)]
+    if rng.random() < 0.3:
+        method = rng.choice([b"CONNECT", b"OPTIONS", b"POST"]) if pos != "method" else method
+    bad = method + b" " + target + b" " + version + b"\r\n" + b"".join(k + b": " + v + b"\r\n" for k, v in hdrs) + b"\r\n"
+    beh = {}
+    if lead and rng.random() < 0.5:
+        beh["0"] = {"kind": "ok", "block": True}
+    data = b"".join(_plain(i) for i in range(lead))
+    if lead and rng.random() < 0.5:
+        reads = [data, bad]
+    else:
+        reads = cut(rng, data + bad, 2) if rng.random() < 0.3 else [data + bad]
+    steps = [["data", r.hex()] for r in reads if r] + [["rel"], ["rel"]]
+    return {"suite": "nonutf8", "pos": pos, "beh": beh, "steps": steps, "ka": KA, "linger": LINGER, "expect_400_last": True}
+
+
+def gen_srvshutdown_case(rng, fixed=None):
+    """A handler that outlives its connection (peer gone, or force-closed by shutdown) and the grace period of
+    Server.shutdown(timeout), swallowing the cancellation, and returns only afterwards.  Nothing may reach the loop's
+    exception handler, Server.shutdown() must not raise."""
+    peer_first, timeout, n = fixed if fixed is not None else (rng.random() < 0.5, rng.choice([1, 2, 6]), rng.randint(1, 3))
+    beh = {"0": {"kind": "shielded"}}
+    steps = [["data", b"".join(_plain(i) for i in range(n)).hex()]]
+    if peer_first:
+        steps.append(["peer"])
+    steps += [["shutdown", timeout], ["tick", timeout + 1], ["tick", timeout + 1], ["tick", 1], ["rel"], ["tick", 1]]
+    if not peer_first and rng.random() < 0.3:
+        steps.insert(2, ["peer"])
+    return {"suite": "srvshutdown", "beh": beh, "steps": steps, "ka": KA, "linger": LINGER}
+
+
+def gen_upgrade_body_case(rng, fixed=None):
+    """An Upgrade request WITH a body whose handler answers (declining) before the body has fully arrived; the upgrade takes
+    effect in the parser when the body ends.  Requests behind it must still be answered (or the connection closed)."""
+    total = rng.randint(2, 12)
+    first = rng.randint(0, total - 1) if fixed is None else fixed[0]
+    together = rng.random() < 0.5 if fixed is None else fixed[1]
+    head = (f"POST /r/0 HTTP/1.1\r\nHost: x\r\n" + UPG + f"Content-Length: {total}\r\n\r\n").encode()
+    body = b"u" * total
+    nxt = _plain(1)
+    beh = {"0": {"kind": rng.choice(["ok", "http"])}}
+    if together:
+        steps = [["data", (head + body[:first]).hex()], ["data", (body[first:] + nxt).hex()]]
+    else:
+        steps = [["data", (head + body[:first]).hex()], ["data", body[first:].hex()], ["data", nxt.hex()]]
+    return {"suite": "upgrade", "beh": beh, "steps": steps, "ka": KA, "linger": LINGER, "nreq": 2, "declined_upgrade_body_late": True}
+
+
 def special_fixed_cases(rng):
     out = [gen_upgrade_case(rng, fixed=f) for f in (
         [[True, False, False], [True]], [[True, False], [False], [True]], [[True, False, False], [True, False]],
@@ -1225,6 +1332,12 @@ def special_fixed_cases(rng):
               (["plain"], "frames", "one", False), ([], "frames", "one", False), (["h2c", "plain"], "lookalike", "tail-own", True),
               (["other", "h2c"], "frames", "one", True)):
         out.append(gen_ws_case(rng, fixed=f))
+    for pos in ("method", "origin", "absolute-host", "authority", "noslash", "noslash-only", "version", "name", "value", "asterisk"):
+        out.append(gen_nonutf8_case(rng, fixed=pos))
+    for f in ((True, 1, 1), (False, 1, 2), (False, 6, 1), (True, 6, 3)):
+        out.append(gen_srvshutdown_case(rng, fixed=f))
+    out.append(gen_upgrade_body_case(rng, fixed=(5, False)))
+    out.append(gen_upgrade_body_case(rng, fixed=(5, True)))
     # a transport that cannot pause: a burst that fills the queue behind a blocked handler, then one request per read
     steps = [["data", b"".join(_plain(i) for i in range(33)).hex()]] + [["data", _plain(i).hex()] for i in range(33, 75)] + [["rel"]]
     out.append({"suite": "pause", "beh": {"0": {"kind": "ok", "block": True}}, "steps": steps, "ka": KA, "linger": LINGER,
@@ -1241,11 +1354,12 @@ def suite_special(ctx):
     for name in sorted(os.listdir(cpath)) if os.path.isdir(cpath) else []:
         payload = json.load(open(os.path.join(cpath, name)))
         c = payload.get("case", payload)
-        if c.get("suite") in ("upgrade", "pause", "ws", "latebad", "badenc", "shutdown"):
+        if c.get("suite") in ("upgrade", "pause", "ws", "latebad", "badenc", "shutdown", "nonutf8", "srvshutdown"):
             cases.append(c)
     cases += special_fixed_cases(rng)
-    n = 240 if ctx.quick else 4800
-    gens = (gen_upgrade_case, gen_pause_case, gen_ws_case, gen_latebad_case, gen_badenc_case, gen_shutdown_case)
+    n = 360 if ctx.quick else 7200
+    gens = (gen_upgrade_case, gen_pause_case, gen_ws_case, gen_latebad_case, gen_badenc_case, gen_shutdown_case,
+            gen_nonutf8_case, gen_srvshutdown_case, gen_upgrade_body_case)
     for k in range(n):
         cases.append(gens[k % len(gens)](rng))
     for c in cases:
@@ -1313,8 +1427,15 @@ def _sig_stream_then_other_response(case, params):
     return case.get("vkind") in ("malformed-wire", "order", "incomplete-open", "unanswered-open") and "stream_other" in case.get("ran_kinds", [])
 
 
+def _sig_declined_upgrade_body_late(case, params):
+    """Upgrade request with a body, answered (declined) before the body ended: the parser switches to 'upgraded' afterwards and
+    the following requests stay in _message_tail"""
+    return case.get("vkind") == "orphaned" and bool(case.get("declined_upgrade_body_late"))
+
+
 SIGNATURES = {
     "stream_then_other_response": _sig_stream_then_other_response,
+    "declined_upgrade_body_late": _sig_declined_upgrade_body_late,
 }
 
 
